@@ -357,6 +357,50 @@ def _register_itertools() -> None:
 _register_itertools()
 
 
+class _CountingIter:
+    """a synchronous iterator that counts how many elements were taken from it"""
+
+    def __init__(self, data: list) -> None:
+        self.data, self.taken = list(data), 0
+
+    def __iter__(self) -> Any:
+        return self
+
+    def __next__(self) -> Any:
+        if self.taken >= len(self.data):
+            raise StopIteration
+        self.taken += 1
+        return self.data[self.taken - 1]
+
+
+def _register_itertools_cancel() -> None:
+    """the first anext() of every itertools function over a synchronous source, entered in a cancelled
+    scope: raises the cancellation and has not advanced the source (probe C only)"""
+    for fname, mk in _it_cases().items():
+        if fname.startswith("repeat"):
+            continue
+
+        @cell(f"itertools.{fname}[first anext, counting sync source]", cancel=True, yields=None)
+        async def _(tg: Any, mk: Any = mk, fname: str = fname) -> Any:
+            data: list = [(1, 1), (0, 0), (2, 2)] if fname == "starmap" else [1, 0, 2]
+            src = _CountingIter(data)
+            if fname == "starmap":
+                it = ait.starmap(_add, src)
+            else:
+                it = mk(src)
+
+            async def op() -> None:
+                nonlocal it
+                if hasattr(it, "__await__") and not hasattr(it, "__aiter__"):
+                    it = await it
+                await anext(aiter(it))
+
+            return op, (lambda: src.taken), _noop
+
+
+_register_itertools_cancel()
+
+
 def _register_tee() -> None:
     """tee(): first and later iterators, and forks of a tee iterator that is fresh, part-way or exhausted"""
     inputs: dict[str, Callable[[], Any]] = {
